@@ -3,7 +3,7 @@ import itertools, re
 from collections import Counter
 
 ID = "C16"
-MODEL_MODULES = ["Base", "Index", "Broadcast", "Linalg"]
+MODEL_MODULES = ["Base", "Index", "Broadcast", "Linalg", "Dtype", "LinalgDtype"]
 HANDLERS = ["h_c16.ml"]
 CLAIM = dict(
     text=("Kernel-checked for every rank and all positive extents, over any scalar type whose addition is associative with a "
@@ -19,7 +19,11 @@ CLAIM = dict(
           "elements by correspondence only; matmulv2 with a 1-d operand, tensordot with integer axes, fixed-shape operand "
           "kinds: correspondence only. REFUTED parts (known findings, each with a _refuted theorem): view::matmul / "
           "array::matmul with a 1-d operand (out-of-range access on run-time shaped operands; matmulv2 is right), "
-          "trace of an EMPTY diagonal (a reduction without initial value over an empty slice; NumPy gives 0). Tied to the C++ by running view:: and array:: matmul, view::matmulv2, dot, inner, outer, vecdot, "
+          "trace of an EMPTY diagonal (a reduction without initial value over an empty slice; NumPy gives 0). Element types "
+          "(finite, decided exhaustively): the result element type of every routine for the 49 ordered pairs of int8/int16/int32/"
+          "int64/uint8/float/double is NumPy's result_type except on enumerated, tight divergence tables (meta::common_type for "
+          "view::matmul, C++ promotion for the multiply-then-sum pipelines, element type kept by trace); view::matmul's type is "
+          "never narrower than either operand. Tied to the C++ by running view:: and array:: matmul, view::matmulv2, dot, inner, outer, vecdot, "
           "tensordot (integer and explicit axes), kron, diagonal, trace on run-time shaped operands and a sample of "
           "fixed-shape (nested std::array) operands with integer data, under NDEBUG and under ASan+UBSan."),
     ref="5.16", technique="Coq proof (view combinators characterised once: reshape = same row-major rank, tile = per-axis mod, "
@@ -35,11 +39,15 @@ RULE = ("matmul: all pairs of shapes (batch_a ++ [n,k]) x (batch_b ++ [k',m]) wi
         "contractible; diagonal / trace for every axis pair (both signs) and offsets -3..4; argument FORMS: trace / diagonal "
         "with all, two or one of (offset, axis1, axis2) OMITTED and tensordot with axes omitted, on rank 2..4 inputs, view "
         "and eager, against NumPy's documented defaults, and compile-time-constant (meta::ct) offsets / axes / tensordot "
-        "axes next to the run-time forms; a sample through fixed-shape "
+        "axes next to the run-time forms; element-type PAIRS (21 ordered pairs of int8/int16/int32/int64/uint8/"
+        "float/double: narrow x wide, int x float, float x double, unsigned x signed, narrow same-type) through every routine with "
+        "data at the ends of the narrow types' ranges and odd halves for floating operands (int x float results are non-integral), "
+        "the result ELEMENT TYPE of the view and of the evaluated array printed and predicted; a sample through fixed-shape "
         "(nested std::array) operands. Data are distinct integers (iota from a random start, alternating sign) so any permuted or "
         "missing term changes the value. non-trivial = some operand of dim >= 2 with an extent > 1; distinct = distinct case lines")
 THEOREM_STATUS = {"proved": ["C16_matmul_shape_spec", "C16_matmul_elem_spec", "C16_matmul_v2_spec", "C16_dot_spec", "C16_inner_spec", "C16_vecdot_spec",
-                             "C16_outer_spec", "C16_diagonal_spec", "C16_trace_spec"],
+                             "C16_outer_spec", "C16_diagonal_spec", "C16_trace_spec", "C16_default_arguments",
+                             "C16_result_dtype_spec", "C16_result_dtype_numpy_divergences_tight", "C16_matmul_dtype_not_narrower"],
                   "partial": ["C16_tensordot_shape_partial", "C16_kron_shape_partial"],
                   "refuted": ["C16_matmul_v1_1d_refuted", "C16_trace_empty_refuted", "C16_trace_empty_beyond_refuted"]}
 ASSUMPTIONS = ["extents are positive", "the scalar addition is associative with a right-neutral zero (integers in the correspondence)",
@@ -49,7 +57,9 @@ ASSUMPTIONS = ["extents are positive", "the scalar addition is associative with 
 def drivers(tier):
     return {"c16": [("c16.cpp", "ndebug", ()), ("c16.cpp", "asan", ("-DVD_LIGHT",))],
             "kron": [("c16_kron.cpp", "ndebug", ())],
-            "forms": [("c16_forms.cpp", "ndebug", ()), ("c16_forms.cpp", "asan", ("-DVD_LIGHT",))]}
+            "forms": [("c16_forms.cpp", "ndebug", ()), ("c16_forms.cpp", "asan", ("-DVD_LIGHT",))],
+            # element-type pairs: three TUs (a third of the pairs each, "unsupported" for the rest), ndebug only (compile time)
+            "dtype": [("c16_dtype_1.cpp", "ndebug", ()), ("c16_dtype_2.cpp", "ndebug", ()), ("c16_dtype_3.cpp", "ndebug", ())]}
 
 
 def size(shape):
@@ -233,6 +243,48 @@ def gen_cases(rng, tier):
         if len(set(x % db for x in axb)) < len(axb): continue
         for p_, q_ in zip(axa, axb): bl[q_] = a[p_]
         addf("tdotx_ct S:%s %s %s %s %s" % (rng.choice(["view", "eval"]), A(rng, a), A(rng, tuple(bl)), L(axa), L(axb)))
+    # ---------------- element types of the two operands: result values AND result element type
+    DT_PAIRS = [("i8", "i32"), ("i32", "i8"), ("i8", "i8"), ("u8", "u8"), ("i8", "i16"), ("i16", "i8"),
+                ("i16", "i64"), ("i64", "i16"), ("u8", "i16"), ("i16", "u8"), ("i32", "i64"), ("i32", "f64"), ("f64", "i32"),
+                ("i8", "f32"), ("f32", "i8"), ("f32", "f64"), ("f64", "f32"), ("i64", "f32"), ("f32", "i64"), ("u8", "f64"), ("f32", "f32")]
+    def TA(t, shape):
+        # integers near the ends of the narrow type's range (products / sums leave it); floating: odd numerators of halves
+        n = size(shape)
+        if t == "i8": vals = [rng.choice([-128, -100, -77, 90, 100, 127, 3, -5]) for _ in range(n)]
+        elif t == "u8": vals = [rng.choice([255, 200, 150, 99, 7, 1]) for _ in range(n)]
+        elif t == "i16": vals = [rng.choice([-300, 250, 181, -181, 1000, 9, -2]) for _ in range(n)]
+        elif t in ("f32", "f64"): vals = [rng.choice([-7, -3, -1, 1, 3, 5, 9, 2, 4]) for _ in range(n)]
+        else: vals = [rng.choice([-1000, 999, 300, -77, 13, 2]) for _ in range(n)]
+        return "A:%s:%s" % (",".join(map(str, shape)), ",".join(map(str, vals)))
+    def addd(line): add("dtype", line, "dtype")
+    small = shapes_upto(3, 3)
+    for (ta, tb) in DT_PAIRS:
+        for _ in range(5 if quick else 40):
+            ba = tuple(rng.choice([1, 2, 3]) for _ in range(rng.randint(0, 2)))
+            bb = tuple(rng.choice([1, e]) for e in ba)[rng.randint(0, len(ba)):]
+            nn, k, m = rng.randint(1, 3), rng.randint(1, 3), rng.randint(1, 3)
+            for op in ("matmul", "matmulv2"):
+                addd("typed S:%s S:%s S:%s %s %s" % (op, ta, tb, TA(ta, ba + (nn, k)), TA(tb, bb + (k, m))))
+            a = rng.choice(small); b = rng.choice(small); k = a[-1]
+            addd("typed S:dot S:%s S:%s %s %s" % (ta, tb, TA(ta, a), TA(tb, (k,) if len(b) == 1 else b[:-2] + (k, b[-1]))))
+            addd("typed S:inner S:%s S:%s %s %s" % (ta, tb, TA(ta, a), TA(tb, b[:-1] + (k,))))
+            addd("typed S:vecdot S:%s S:%s %s %s" % (ta, tb, TA(ta, a), TA(tb, tuple(rng.choice([1, e]) for e in a[:-1]) + (k,))))
+            a2 = rng.choice(shapes_upto(2, 3)); b2 = rng.choice(shapes_upto(2, 3))
+            addd("typed S:outer S:%s S:%s %s %s" % (ta, tb, TA(ta, a2), TA(tb, b2)))
+            addd("typed S:kron S:%s S:%s %s %s" % (ta, tb, TA(ta, a2), TA(tb, b2)))
+            nmax = min(len(a), len(b)); n_ = rng.randint(0, nmax)
+            addd("typed S:tdot S:%s S:%s %s %s I:%d" % (ta, tb, TA(ta, a), TA(tb, (a[len(a) - n_:] if n_ else ()) + b[n_:]), n_))
+            axa = rng.sample(range(len(a)), n_); axb = rng.sample(range(len(b)), n_)
+            bl = list(b)
+            for p_, q_ in zip(axa, axb): bl[q_] = a[p_]
+            addd("typed S:tdotx S:%s S:%s %s %s %s %s" % (ta, tb, TA(ta, a), TA(tb, tuple(bl)), L(axa), L(axb)))
+    for t_ in ("i8", "i16", "i32", "i64", "u8", "f32", "f64"):
+        for _ in range(6 if quick else 40):
+            s_ = rng.choice(shapes_upto(3, 3, 2)); d = len(s_)
+            p_, q_ = rng.sample(range(d), 2)
+            off = rng.choice([-1, 0, 0, 1])
+            addd("typed1 S:trace S:%s %s I:%d I:%d I:%d" % (t_, TA(t_, s_), off, p_, q_))
+            addd("typed1 S:diagonal S:%s %s I:%d I:%d I:%d" % (t_, TA(t_, s_), off, p_, q_))
     # ---------------- kron (own translation unit)
     kshp = shapes_upto(3, 3)
     for a in shapes_upto(2, 2):
@@ -275,6 +327,8 @@ def classify(line, impl, spec, model):
     sh = _shapes(line)
     if op == "matmul" and kind in ("view", "eval") and (len(sh[0]) == 1 or len(sh[1]) == 1) and impl.startswith("trap"):
         return "matmul_1d_operand"
+    if op == "typed1" and kind == "trace":
+        op = "trace"; t = t[:3] + t[4:]                      # typed1 S:trace S:T A I I I: drop the array token, the ints start at t[3]
     if op.startswith("trace"):
         s = sh[0]; d = len(s)
         vals = [_ints(x) for x in t[3:]] + [None, None, None]
